@@ -83,3 +83,22 @@ fn vx_sum<I: Iterator<Item = usize>>(it: I) -> (r: usize)
         it.obeys_prophetic_iter_laws() ==> it.will_return_none(),
         it.obeys_prophetic_iter_laws() && seq_sum(it.remaining()) <= usize::MAX ==> r == seq_sum(it.remaining()),
 { it.sum() }
+
+// `std::collections::btree_set::Difference`: "A lazy iterator producing elements in the difference of BTreeSets."
+#[verifier::external_type_specification]
+#[verifier::external_body]
+#[verifier::reject_recursive_types(T)]
+#[verifier::reject_recursive_types(A)]
+pub struct ExBTreeSetDifference<'a, T: 'a, A: core::alloc::Allocator + Clone>(btree_set::Difference<'a, T, A>);
+
+// rustdoc BTreeSet::difference: "Visits the elements representing the difference, i.e., the elements that are in self but
+// not in other, in ascending order."
+pub assume_specification<'a, T: Ord, A: core::alloc::Allocator + Clone> [BTreeSet::<T, A>::difference] (s: &'a BTreeSet<T, A>, other: &'a BTreeSet<T, A>) -> (r: btree_set::Difference<'a, T, A>)
+    ensures
+        r.obeys_prophetic_iter_laws(),
+        r.decrease() is Some,
+        vstd::std_specs::btree::key_obeys_cmp_spec::<T>() ==> {
+            &&& r.remaining().unref().to_set() == s@.difference(other@)
+            &&& r.remaining().no_duplicates()
+            &&& vstd::std_specs::btree::increasing_seq(r.remaining())
+        };
